@@ -31,29 +31,29 @@ Ltac vof_numeric z n :=
 (* --- ions whose dielectronic term is a sum of positive terms: positive for every T > 0 *)
 Lemma rec_raw_pos_C_p1 : forall T, 0 < T -> 0 < rec_before_scaling Rops C_p1 (Vof C_p1 T) T.
 Proof.
-  intros T HT. pose proof (Vof_pos C_p1 T (conj ltac:(discriminate) ltac:(discriminate)) HT) as HV.
+  intros T HT. assert (HV : 0 < Vof C_p1 T) by (apply Vof_pos; [split; discriminate | assumption]).
   set (V := Vof C_p1 T) in *. unfR. dec_norm.
   assert (0 < T * (1 / 10000)) by lra. pos.
 Qed.
 
 Lemma rec_raw_pos_Ne_n : forall T, 0 < T -> 0 < rec_before_scaling Rops Ne_n (Vof Ne_n T) T.
-Proof. intros T HT. apply (Vof_pos Ne_n T (conj ltac:(discriminate) ltac:(discriminate)) HT). Qed.
+Proof. intros T HT. cbn [rec_before_scaling]. apply Vof_pos; [split; discriminate | assumption]. Qed.
 
 Lemma rec_raw_pos_S_p1 : forall T, 0 < T -> 0 < rec_before_scaling Rops S_p1 (Vof S_p1 T) T.
 Proof.
-  intros T HT. pose proof (Vof_pos S_p1 T (conj ltac:(discriminate) ltac:(discriminate)) HT) as HV.
+  intros T HT. assert (HV : 0 < Vof S_p1 T) by (apply Vof_pos; [split; discriminate | assumption]).
   set (V := Vof S_p1 T) in *. unfR. dec_norm. pos.
 Qed.
 
 Lemma rec_raw_pos_S_p2 : forall T, 0 < T -> 0 < rec_before_scaling Rops S_p2 (Vof S_p2 T) T.
 Proof.
-  intros T HT. pose proof (Vof_pos S_p2 T (conj ltac:(discriminate) ltac:(discriminate)) HT) as HV.
+  intros T HT. assert (HV : 0 < Vof S_p2 T) by (apply Vof_pos; [split; discriminate | assumption]).
   set (V := Vof S_p2 T) in *. unfR. dec_norm. pos.
 Qed.
 
 Lemma rec_raw_pos_S_p3 : forall T, 0 < T -> 0 < rec_before_scaling Rops S_p3 (Vof S_p3 T) T.
 Proof.
-  intros T HT. pose proof (Vof_pos S_p3 T (conj ltac:(discriminate) ltac:(discriminate)) HT) as HV.
+  intros T HT. assert (HV : 0 < Vof S_p3 T) by (apply Vof_pos; [split; discriminate | assumption]).
   set (V := Vof S_p3 T) in *. unfR. dec_norm. pos.
 Qed.
 
@@ -120,6 +120,9 @@ Definition ctform_ok (f : ctform) : bool :=
   | CTexp2 a b c d e lo hi => dnonneg a && dpos lo && dle lo hi && sgn c d
   end.
 
+Lemma dec_m1 : dec2R (D (-1) 0) = -1.
+Proof. dec_norm. lra. Qed.
+
 Lemma clamp_R : forall lo hi t, clamp Rops lo hi t = Rmin (Rmax t lo) hi.
 Proof. intros; unfold clamp. rewrite fmin_R, fmax_R. reflexivity. Qed.
 
@@ -151,7 +154,7 @@ Proof.
     assert (Hcd : 0 <= dec2R c \/ (-1 < dec2R c /\ dec2R d <= 0)).
     { apply orb_prop in Hs as [Hs | Hs]; [left; apply dnonneg_sound; assumption|].
       apply andb_prop in Hs as [H1 H2]. right; split; [|apply dnonpos_sound; assumption].
-      apply dlt_sound in H1. dec_norm_in H1. lra. }
+      apply dlt_sound in H1. rewrite dec_m1 in H1. lra. }
     cbn [ct_eval]. unfold cd; cbn [o_dec o_mul o_add o_pow o_exp Rops]. rewrite clamp_R, one_R.
     pose proof (clamp_bounds (dec2R lo) (dec2R hi) t Hle) as [B1 B2]. set (s := Rmin _ _) in *.
     apply Rmult_le_pos; [apply Rmult_le_pos; [assumption | left; apply Rpower_pos]|].
@@ -161,7 +164,7 @@ Proof.
     assert (Hcd : 0 <= dec2R c \/ (-1 < dec2R c /\ dec2R d <= 0)).
     { apply orb_prop in Hs as [Hs | Hs]; [left; apply dnonneg_sound; assumption|].
       apply andb_prop in Hs as [H1 H2]. right; split; [|apply dnonpos_sound; assumption].
-      apply dlt_sound in H1. dec_norm_in H1. lra. }
+      apply dlt_sound in H1. rewrite dec_m1 in H1. lra. }
     cbn [ct_eval]. unfold cd; cbn [o_dec o_mul o_add o_div o_pow o_exp Rops]. rewrite clamp_R, one_R.
     pose proof (clamp_bounds (dec2R lo) (dec2R hi) t Hle) as [B1 B2]. set (s := Rmin _ _) in *.
     apply Rmult_le_pos; [|left; apply exp_pos].
